@@ -586,6 +586,7 @@ class BaseParser:
 
         for key, field in self.fields.items():
             value = unprovided
+            conflict = unprovided
             name = field.attname if as_attname else field.name
 
             if excluded_keys and name in excluded_keys:
@@ -602,10 +603,10 @@ class BaseParser:
                         if unprovided(value):
                             value = data[alias]
                         elif self._alias_conflict(data[alias], value):
-                            context.handle_error(exc.AliasConflictError(item=name, value=data[alias]))
+                            conflict = data[alias]
                             break
                         if alias in conflicts:
-                            context.handle_error(exc.AliasConflictError(item=name, value=conflicts[alias]))
+                            conflict = conflicts[alias]
                             break
 
             if unprovided(value):
@@ -630,6 +631,10 @@ class BaseParser:
                 if not unprovided(default):
                     result[name] = default
                 continue
+
+            if not unprovided(conflict):
+                # reported only for a field that does take the input
+                context.handle_error(exc.AliasConflictError(item=name, value=conflict))
 
             parsed = field.parse_value(value, context=context)
             if unprovided(parsed):
